@@ -120,9 +120,13 @@ def shards(tier, seed):
     else:
         U = [dict(n=2, k=2, T=3, labels=XY), dict(n=3, k=2, T=2, labels=XY, sym=True), dict(n=5, k=1, T=2, labels=XY),
              dict(n=2, k=2, T=3, labels=[None, "x"]), dict(n=4, k=1, T=2, labels=XY)]
+    # short and long segments mixed (a short far unit followed by a long unit that is within reach again)
+    LONG = [[0, 1], [2, 3], [2, 6], [0, 6], [5, 6], [1, 2]]
+    U.append(dict(n=2, k=2, T=6, labels=["x"], segs=LONG))
+    U.append(dict(n=3, k=2, T=6, labels=["x"], segs=LONG[:4], sym=True, every=2 if tier == "quick" else 1))
     tasks = []
     for u in U:
-        ns = max(1, min(48, size_G(u["n"], u["k"], u["T"], u["labels"]) // 100))
+        ns = max(1, min(48, size_G(u["n"], u["k"], u["T"], u["labels"], segs=u.get("segs")) // 100))
         for s in range(ns):
             tasks.append({"universe": {k: v for k, v in u.items() if k != "every"}, "shard": s, "nshards": ns,
                           "every": u.get("every", 1), "tier": tier})
